@@ -26,6 +26,8 @@ HARNESSES = [
     ("c16", "rcfork", ()),
     ("c19", "rcfork", ()),
     ("c18", "rcfork", ()),
+    ("c17a", "rcfork-tsan", (), "c17"),
+    ("c17b", "rcfork-tsan", ("-DC17_PART_B=1",), "c17"),
     ("c04", "rcfork", ()),
     ("fz_bitmap_hwloc", "fuzz", ("-DFMT=0",), "fz_bitmap"),
     ("fz_bitmap_list", "fuzz", ("-DFMT=1",), "fz_bitmap"),
@@ -104,7 +106,7 @@ def replay_one(ctx, path):
 
 
 # engine cfg.name -> source file name
-ALIASES = {"c18_snapshots": "c18", "c01_load": "c01", "c02_history": "c02", "c03_bitmap": "c03", "c05_xml": "c05", "c06_xmlmut": "c06", "c07_synthetic": "c07", "c08_restrict": "c08", "c09_helpers": "c09", "c10_binding": "c10", "c11_types": "c11", "c12_dup": "c12", "c13_distances": "c13", "c14_memattrs": "c14", "c15_cpukinds": "c15", "c16_diff": "c16", "c19_shmem": "c19", "c04_strings": "c04"}
+ALIASES = {"c18_snapshots": "c18", "c17_readers": "c17a", "c17_independent": "c17b", "c01_load": "c01", "c02_history": "c02", "c03_bitmap": "c03", "c05_xml": "c05", "c06_xmlmut": "c06", "c07_synthetic": "c07", "c08_restrict": "c08", "c09_helpers": "c09", "c10_binding": "c10", "c11_types": "c11", "c12_dup": "c12", "c13_distances": "c13", "c14_memattrs": "c14", "c15_cpukinds": "c15", "c16_diff": "c16", "c19_shmem": "c19", "c04_strings": "c04"}
 
 
 def C01(ctx):
